@@ -389,6 +389,41 @@ func init() {
 			}(w, order)
 		}
 		wg.Wait()
+		// frames of the three checksummed protocols hammered in parallel: each goroutine's frames must carry its own
+		// protocol's checksum (a shared look-up cache or scratch state would mix them up)
+		var frameItems []item
+		for _, t := range frameTypes() {
+			if t.Frame.Cks == "" {
+				continue
+			}
+			for k := 0; k < 4; k++ {
+				v := g.msg(t.ID, true, 0)
+				frameItems = append(frameItems, item{v: v, want: goEnc(v, nil, BufMode{})})
+			}
+		}
+		hammer := 4000
+		if thorough {
+			hammer = 60000
+		}
+		for w := 0; w < workers; w++ {
+			wg.Add(1)
+			go func(w int) {
+				defer wg.Done()
+				for i := 0; i < hammer; i++ {
+					it := frameItems[(w+i*7)%len(frameItems)]
+					if w%2 == 0 {
+						it = frameItems[w%len(frameItems)] // half of the workers stay on one protocol
+					}
+					r := goEnc(it.v, nil, BufMode{})
+					if r.Class != it.want.Class || !bytes.Equal(r.Appended, it.want.Appended) {
+						if atomic.AddInt32(&mism, 1) == 1 {
+							first.Store("enc - " + it.v.String() + "  sequential: " + trunc(it.want.Line(), 300) + "  parallel: " + trunc(r.Line(), 300) + " " + r.PanicMsg)
+						}
+					}
+				}
+			}(w)
+		}
+		wg.Wait()
 		if mism > 0 {
 			c, _ := first.Load().(string)
 			o.violate(Violation{Property: "C20", Kind: "direct", What: fmt.Sprintf("%d results of parallel encode/decode differ from the sequential results", mism), Case: c, Key: "parallel"})
